@@ -184,12 +184,13 @@ def layout(layout):
         for i in range(dim):
             vx.assume((dv[i] >= exp_lo[i]) & (dv[i] <= exp_hi[i]), "decision vector inside the declared box")
             vx.assume((dv2[i] >= exp_lo[i]) & (dv2[i] <= exp_hi[i]), "decision vector inside the declared box")
-        params = prob.convert_to_parameters(symnp.asarray(dv))
+        dv_arr = symnp.asarray(dv)
+        params = prob.convert_to_parameters(dv_arr)
         pe = params.elems()
         want = [funcs.pow10(dv[i]) if owner[i][2] else dv[i] for i in range(dim)]
         vx.prove(f"C10/convert/value/{lab}", vx.all_of([len(pe) == dim] + [a == b for a, b in zip(pe, want)]))
         vx.prove(f"C10/convert/in_box/{lab}", vx.all_of([(pe[i] >= owner[i][3]) & (pe[i] <= owner[i][4]) for i in range(dim)]))
-        vx.prove(f"C10/convert/input_unchanged/{lab}", True)
+        vx.prove(f"C10/convert/input_unchanged/{lab}", vx.all_of([len(dv_arr.elems()) == dim] + [a == b for a, b in zip(dv_arr.elems(), dv)]))
         # 2-D (individual x param): what _get_champions / get_best_individuals report
         p2 = prob.convert_to_parameters(symnp.asarray([dv, dv2]))
         want2 = want + [funcs.pow10(dv2[i]) if owner[i][2] else dv2[i] for i in range(dim)]
@@ -390,8 +391,10 @@ def evaluated_candidates(algo, solver):
     corner = vx.concretize_int(c)
     r = _evaluated(algo, solver, corner)
     lab = f"{algo}{'/' + solver if solver else ''},corner={corner}"
-    if r["evaluations"] > 0:
-        vx.reach("C10/evaluated/ran")
+    if r["evaluations"] == 0:
+        # nothing reached the pipeline (the algorithm could not even be set up): no verdict, not a pass
+        raise symnp.Unsupported(f"no candidate was evaluated for {lab}: {r['refused']}")
+    vx.reach("C10/evaluated/ran")
     vx.prove(f"C10/evaluated/in_box/{lab}", r["n_out"] == 0, out_of_box=str(r["out_of_box"])[:200], entry_points=",".join(r["entry_points"]), refused=str(r["refused"]))
 
 
